@@ -307,9 +307,12 @@ pub fn replay(input: &str, output: &str) {
                 }
                 // the stack answers exactly what the leaf answers for the rewritten pose
                 let direct = call_entry(leaf.as_ref(), entry, &leaf_pose.to_na(), &prev, j6);
-                let same = direct.len() == ans.len() && direct.iter().zip(ans.iter()).all(|(a, b)| (0..6).all(|i| { let d = (a[i] - b[i]).rem_euclid(2.0 * std::f64::consts::PI); d.min(2.0 * std::f64::consts::PI - d) < 1e-6 }));
+                // compared as sets modulo 2 pi: the order of (nearly) equal-cost answers is decided by rounding
+                // noise of the rewritten pose; the ordering contract itself is judged by Solver!Ordered (C04)
+                let close = |a: &Joints, b: &Joints| (0..6).all(|i| { let d = (a[i] - b[i]).rem_euclid(2.0 * std::f64::consts::PI); d.min(2.0 * std::f64::consts::PI - d) < 1e-6 });
+                let same = direct.len() == ans.len() && direct.iter().all(|a| ans.iter().any(|b| close(a, b))) && ans.iter().all(|a| direct.iter().any(|b| close(a, b)));
                 if !same {
-                    report(format!("stack:{}:{}:differs-from-leaf-entry", sh, entry), format!("stack answered {} solutions, the leaf's {} answers {} for the rewritten pose", ans.len(), entry, direct.len()));
+                    report(format!("stack:{}:{}:differs-from-leaf-entry", sh, entry), format!("stack answered {} solutions, the leaf's {} answers {} for the rewritten pose; stack {:?} leaf {:?}", ans.len(), entry, direct.len(), ans, direct));
                 }
             }
         }
